@@ -13,6 +13,7 @@ import multiprocessing
 import os
 import pickle
 import random
+import shutil
 import sys
 
 import numpy as np
@@ -95,8 +96,22 @@ def load_file(fn, bs):
     return True, ids, ""
 
 
+def datafile(sc, fn):
+    """the .npy file that holds the batches (level pool: <prefix>/<pool name>/a.npy)"""
+    if sc["level"] == "pool":
+        return os.path.join(fn[:-4], "a.npy")
+    return fn
+
+
+def cleanup(sc, fn):
+    if sc["level"] == "pool":
+        shutil.rmtree(fn[:-4], ignore_errors=True)
+    elif os.path.exists(fn):
+        os.remove(fn)
+
+
 class Runner:
-    """Executes the abstract calls of a scenario on a real NpyArray or NpyStore."""
+    """Executes the abstract calls of a scenario on a real NpyArray, NpyStore, or ArrayPool with one store 'a'."""
 
     def __init__(self, sc, fn, counter=None):
         import elfi.store as st
@@ -106,16 +121,54 @@ class Runner:
         self.bs = sc["bs"]
         self.counter = counter
         init = [batch_array(sc, v) for v in sc["init"]]
+        if sc["level"] == "pool":
+            from elfi.model.elfi_model import ComputationContext
+            self.pname, self.prefix = os.path.basename(fn)[:-4], os.path.dirname(fn)
+            pool = st.ArrayPool(["a"], name=self.pname, prefix=self.prefix)
+            pool.set_context(ComputationContext(batch_size=self.bs, seed=1))
+            for i, b in enumerate(init):
+                pool.add_batch({"a": b}, i)
+            pool.flush()                             # initialised and flushed (init is never empty at this level)
+            self.obj = pool
+            return
         data = np.concatenate(init) if init else np.empty((0,) + tuple(sc["row_shape"]), dtype=sc["dtype"])
         arr = st.NpyArray(fn, array=data)        # append + flush: initialised and flushed
         self.obj = arr if sc["level"] == "array" else st.NpyStore(arr, self.bs)
 
     def n(self):
+        if self.sc["level"] == "pool":
+            return len(self.obj.stores["a"])
         return len(self.obj) // self.bs if self.sc["level"] == "array" else len(self.obj)
+
+    def call_pool(self, c):
+        op, a, b = c
+        pool = self.obj
+        if op == "append":
+            pool.add_batch({"a": batch_array(self.sc, a)}, self.n())
+        elif op == "overwrite":
+            pool.stores["a"][a - 1] = batch_array(self.sc, b)
+        elif op == "truncate":
+            if a == 0:
+                pool.clear()
+            else:
+                while self.n() > a:
+                    pool.remove_batch(self.n() - 1)
+        elif op == "read":
+            if self.n() > 0:
+                _ = np.array(pool.get_batch(0)["a"])
+        elif op == "flush":
+            pool.flush()
+        elif op == "reopen":
+            pool.close()
+            self.obj = self.st.ArrayPool.open(self.pname, prefix=self.prefix)
+        else:
+            raise ValueError(op)
 
     def call(self, c):
         op, a, b = c
         o, bs, level = self.obj, self.bs, self.sc["level"]
+        if level == "pool":
+            return self.call_pool(c)
         if op == "append":
             if level == "array":
                 o.append(batch_array(self.sc, a))
@@ -155,14 +208,17 @@ class Runner:
         n = self.n()
         content = []
         for i in range(n):
-            blk = self.obj[i * self.bs:(i + 1) * self.bs] if self.sc["level"] == "array" else self.obj[i]
+            if self.sc["level"] == "pool":
+                blk = self.obj.stores["a"][i]
+            else:
+                blk = self.obj[i * self.bs:(i + 1) * self.bs] if self.sc["level"] == "array" else self.obj[i]
             ids = decode_batches(np.array(blk), self.bs)
             content.append(ids[0] if ids and len(ids) == 1 else -1)
         return n, content
 
     def contains_ok(self):
         """`i in store` agrees with len (NpyStore only)."""
-        if self.sc["level"] == "array":
+        if self.sc["level"] in ("array", "pool"):
             return True
         n = len(self.obj)
         return all((i in self.obj) == (i < n) for i in range(0, n + 2))
@@ -176,7 +232,12 @@ def record_api(sc, workdir):
     fn = os.path.join(workdir, "api_%d_%d.npy" % (os.getpid(), random.getrandbits(40)))
     calls = tcalls(sc)
     try:
-        r = Runner(sc, fn)
+        try:
+            r = Runner(sc, fn)
+        except Exception as ex:       # initialising the store with its first batches raised: nothing is reported
+            for tc in calls:
+                tc["obs"] = dict(len=-1, content=[], looked=True, fileok=False, file=[], exc="init %s: %s" % (type(ex).__name__, str(ex)[:100]))
+            return dict(kind="api", init=sc["init"], calls=calls, kill=0, obs=dict(loadable=True, content=[]))
         for c, tc in zip(sc["calls"], calls):
             try:
                 r.call(c)
@@ -191,7 +252,7 @@ def record_api(sc, workdir):
                     n = -2
                 obs = dict(len=n, content=content, looked=bool(look), fileok=True, file=[])
                 if c[0] in ("flush", "reopen", "pickle", "reopen_n"):
-                    ok, ids, _why = load_file(fn, sc["bs"])
+                    ok, ids, _why = load_file(datafile(sc, fn), sc["bs"])
                     obs["fileok"], obs["file"] = ok, ids
             except Exception as ex:      # a valid call raised: the store no longer reports the list model
                 obs = dict(len=-1, content=[], looked=True, fileok=False, file=[], exc="%s: %s" % (type(ex).__name__, str(ex)[:100]))
@@ -201,8 +262,7 @@ def record_api(sc, workdir):
         except Exception:
             pass
     finally:
-        if os.path.exists(fn):
-            os.remove(fn)
+        cleanup(sc, fn)
     for tc in calls:
         tc.setdefault("obs", dict(len=-1, content=[], looked=True, fileok=False, file=[]))
     return dict(kind="api", init=sc["init"], calls=calls, kill=0, obs=dict(loadable=True, content=[]))
@@ -215,7 +275,11 @@ def count_ops(sc, workdir):
     counter = crashfs.Counter()
     crashfs.install(counter)
     try:
-        r = Runner(sc, fn, counter)
+        try:
+            r = Runner(sc, fn, counter)
+        except Exception:
+            sc["_completed_calls"] = 0
+            return []
         start = counter.n
         completed = 0
         try:
@@ -234,8 +298,7 @@ def count_ops(sc, workdir):
             pass
     finally:
         crashfs.uninstall()
-        if os.path.exists(fn):
-            os.remove(fn)
+        cleanup(sc, fn)
     return log
 
 
@@ -261,9 +324,8 @@ def record_crash(sc, workdir):
         os._exit(79)          # kill point not reached
     _pid, status = os.waitpid(pid, 0)
     code = os.waitstatus_to_exitcode(status)
-    ok, ids, why = load_file(fn, sc["bs"])
-    if os.path.exists(fn):
-        os.remove(fn)
+    ok, ids, why = load_file(datafile(sc, fn), sc["bs"])
+    cleanup(sc, fn)
     return dict(kind="crash", init=sc["init"], calls=tcalls(sc), kill=sc["kill_call"],
                 obs=dict(loadable=ok, content=ids, why=why), child_exit=code)
 
@@ -316,7 +378,7 @@ def normalise(sc):
     """A store has no multi-batch truncation: `truncate a` on an NpyStore is the public calls del store[last] repeated
     (or clear() for a = 0).  Each public call is one call of the trace - the content between two of them is a logical
     content of its own (a kill there may legitimately leave it behind)."""
-    if sc["level"] != "store":
+    if sc["level"] not in ("store", "pool"):
         return sc
     n, calls = len(sc["init"]), []
     for op, a, b in sc["calls"]:
@@ -349,6 +411,14 @@ def scenarios(ctx, workdir):
         sc["layout"] = rnd.choice(["C", "C", "F", "strided"])
         partial = level == "store" and i % 4 == 0
         sc["calls"] = valid_histories(rnd, rnd.randint(2, 5 if ctx.quick else 7), 4, len(sc["init"]), partial=partial)
+        hists.append(normalise(sc))
+    # ArrayPool level: one on-disk store 'a' driven through the pool's own calls (add_batch / remove_batch / clear / flush /
+    # close + ArrayPool.open); the batches live in <prefix>/<name>/a.npy
+    for i in range(12 if ctx.quick else 150):
+        sc = dict(level="pool", dtype=rnd.choice(DTYPES), row_shape=rnd.choice([[], [2], [3, 2]]), bs=rnd.choice([1, 2, 3]),
+                  init=[1, 2][:rnd.randint(1, 2)], layout=rnd.choice(["C", "F", "strided"]))
+        calls = valid_histories(rnd, rnd.randint(2, 5 if ctx.quick else 7), 4, len(sc["init"]))
+        sc["calls"] = [(["flush", 0, 0] if c[0] == "pickle" else c) for c in calls]
         hists.append(normalise(sc))
     # a few histories with batches larger than Python's 8 KiB buffer (writes go straight to the OS)
     for i in range(3 if ctx.quick else 20):
